@@ -26,7 +26,7 @@ func checkC07(c *Ctx) {
 	p := c.P
 	c.Rule("R1", "singleflight entry lifetime: the winner of LoadOrStore deletes the key on every path after completion")
 	c.Rule("R2", "self-removal of a finished backend connection; connection closed before the writer is joined")
-	c.Rule("R3", "retry on refresh failure: every failing path reaches triggerSlotsRefresh")
+	c.Rule("R3", "retry on refresh failure: every failing path reaches a non-blocking send on the refresh channel; no send on that channel can block")
 	c.Rule("R4", "triggers: host-change callbacks reach the trigger; removed hosts' connections are stopped; replace resets all")
 	c.Rule("R5", "refresh loop interruptible: blocking ops guarded by upstream.quit, joins, or timers")
 	c.Rule("R6", "nil slot entry: the nil test dominates every dereference (fallback to a seed host)")
@@ -38,7 +38,38 @@ func checkC07(c *Ctx) {
 		c.Unresolved("R1", "upstream.triggerSlotsRefresh / createClientCalls")
 		return
 	}
-	isTrigger := func(in ssa.Instruction) bool { return isCallToFn(in, trigger) }
+	// the trigger by role: a non-blocking send on the refresh channel, inline or through a helper
+	refreshCh := p.Field(redisPkg, "upstream", "slotsRefreshCh")
+	trigFns := map[*ssa.Function]bool{trigger: true}
+	trigSel := map[ssa.Instruction]bool{}
+	if refreshCh != nil {
+		nSend := 0
+		for _, op := range p.chanOpsOnField(refreshCh) {
+			if op.Kind != opSend {
+				continue
+			}
+			nSend++
+			site := fmt.Sprintf("send#%d on the refresh channel in %s", nSend, fnKey(op.Fn))
+			if op.InSelect != nil && !op.Blocking {
+				trigFns[op.Fn] = true
+				trigSel[op.InSelect] = true
+				c.OK("R3", site, op.In.Pos(), "non-blocking (select with default)")
+			} else {
+				c.Fail("R3", site, op.In.Pos(), "a blocking send on the refresh channel: its only receiver is the refresh loop, which also runs the code that retriggers after a failure - with the one-slot buffer full the sender (the loop itself, or a request path) waits for ever and routing never converges again")
+			}
+		}
+	}
+	isTrigger := func(in ssa.Instruction) bool {
+		if trigSel[in] {
+			return true
+		}
+		if cc := callOf(in); cc != nil {
+			if g := calleeFn(cc); g != nil && trigFns[g] {
+				return true
+			}
+		}
+		return false
+	}
 
 	// ---------------- R1
 	nLS := 0
